@@ -204,7 +204,12 @@ def algo_drift(ctx, runs):
     """advisory: step events from the hooks must be steps of HpoAlgo's machines; mismatch = algorithm drift, never a violation"""
     tf = os.path.join(ctx.scratch, "algo.ndjson")
     s = hv(ctx, "record-algo", trace=tf, runs=runs)
-    ok, line_no = tlc_trace(ctx, "trace/TraceAlgo.cfg", "trace/TraceAlgo.tla", tf)
+    try:
+        ok, line_no = tlc_trace(ctx, "trace/TraceAlgo.cfg", "trace/TraceAlgo.tla", tf)
+    except ToolError as e:
+        # advisory check: an evaluation error while matching hook events also just means "does not match"
+        ok, line_no = False, 0
+        log(f"[advisory] TraceAlgo could not be evaluated on this trace: {str(e)[:200]}")
     ctx.extra["algorithm_drift"] = not ok
     ctx.extra["hook_events_validated"] = s.get("counters", {}).get("hook_events", 0) if ok else 0
     if not ok:
